@@ -9,6 +9,10 @@
 //!   symbol table after the permuted run; the model replies with `registerAll` of the lists.
 //! * `twice <set>` — the same input in two child processes (different `RandomState` seeds);
 //!   impl = second process, oracle = first process (full per-file digests).
+//! * `excl p n p' n'` — `DefineContext::exclusive` on two contexts built from `#[ifdef]`/`#[ifndef]`
+//!   attributes over the identifiers `VD<k>` (comma lists, `-` = none): impl = `ab=a.exclusive(b)
+//!   ba=b.exclusive(a)`; model = `exclusiveSets` both ways; oracle = the symmetric reply (hypothesis
+//!   `hsym` of C24 `duplicate_verdict_perm`).
 use crate::rng::Rng;
 use crate::util::{Log, Opts};
 use crate::vsets::{self, FileSet, RunCfg, RunOut};
@@ -204,8 +208,43 @@ impl Exec<'_> {
         true
     }
 
+    fn excl(&mut self, line: &str) -> bool {
+        use veryl_analyzer::attribute::Attribute;
+        use veryl_analyzer::namespace::DefineContext;
+        let t: Vec<&str> = line.split(' ').collect();
+        if t.len() != 5 {
+            return false;
+        }
+        let set = |s: &str| -> Option<Vec<u64>> {
+            if s == "-" {
+                Some(vec![])
+            } else {
+                s.split(',').map(|x| x.parse().ok()).collect()
+            }
+        };
+        let (Some(p), Some(n), Some(p2), Some(n2)) = (set(t[1]), set(t[2]), set(t[3]), set(t[4])) else { return false };
+        let ctx = |p: &[u64], n: &[u64]| -> DefineContext {
+            let mut a: Vec<Attribute> = vec![];
+            for x in p {
+                a.push(Attribute::Ifdef(veryl_parser::resource_table::insert_str(&format!("VD{x}"))));
+            }
+            for x in n {
+                a.push(Attribute::Ifndef(veryl_parser::resource_table::insert_str(&format!("VD{x}"))));
+            }
+            a.as_slice().into()
+        };
+        let (a, b) = (ctx(&p, &n), ctx(&p2, &n2));
+        let (ab, ba) = (a.exclusive(&b) as u8, b.exclusive(&a) as u8);
+        self.log.count("op.excl");
+        self.log.count(if ab == 1 { "excl.exclusive" } else { "excl.not-exclusive" });
+        self.log.push3(line.into(), format!("ab={ab} ba={ba}"), format!("ab={ab} ba={ab}"));
+        true
+    }
+
     fn exec(&mut self, line: &str) {
-        let ok = if line.starts_with("perm ") {
+        let ok = if line.starts_with("excl ") {
+            self.excl(line)
+        } else if line.starts_with("perm ") {
             self.perm(line)
         } else if line.starts_with("twice ") {
             self.twice(line)
@@ -320,6 +359,20 @@ pub fn main(opts: &Opts) -> i32 {
             ex.exec(&format!("perm {spec} {}", show_perm(&p)));
         }
         ex.exec(&format!("twice {spec}"));
+    }
+    // DefineContext::exclusive vs M-Register `exclusiveSets` (own stream: the draws above stay as they were)
+    let mut rx = Rng::new(opts.seed() ^ 0x5eed_e8c1);
+    let show = |v: &[u64]| if v.is_empty() { "-".to_string() } else { v.iter().map(|x| x.to_string()).collect::<Vec<_>>().join(",") };
+    for _ in 0..opts.num("excl", 200) {
+        let mut sets: Vec<Vec<u64>> = vec![];
+        for _ in 0..4 {
+            let k = rx.below(4);
+            let mut v: Vec<u64> = (0..k).map(|_| rx.below(5)).collect();
+            v.sort();
+            v.dedup();
+            sets.push(v);
+        }
+        ex.exec(&format!("excl {} {} {} {}", show(&sets[0]), show(&sets[1]), show(&sets[2]), show(&sets[3])));
     }
     log.stats.insert("sequences".into(), nsets + 1);
     log.write(&out);
